@@ -12,7 +12,14 @@
    resume reading when it stops at a marker -> finding F11).
 2. TLC generates the cases: exhaustive case tables (every stream of <= N
    symbols over {a, b, \\n} x every chunking x every read call, reader first
-   and data first, the call repeated until EOF) and simulated behaviours
+   and data first, the call repeated until EOF; the separators are drawn by
+   TLC from every shape class of literal tuples: one unit, word, repeated
+   first unit (aa, aab), equal lengths, prefix, suffix, nested, lexicographic
+   order equal / opposite to length order, plus the regex a+b with and
+   without max_separator_len; cases with a packet boundary strictly inside a
+   separator occurrence are always kept when quick samples the tables; the
+   pieces returned for one (stream, request) are also compared across all
+   replayed chunkings) and simulated behaviours
    (two data types sharing the window, in-band markers on server-side
    readers, exit status / CLOSE orderings with wait(), redirections,
    drain()).  Every case is replayed into the real code over a real channel
